@@ -95,7 +95,7 @@ func main() {
 	recPath := fs.String("rec", "", "replay file")
 	build := fs.String("build", "plain", "build label")
 	capFile := fs.String("capture", "", "capture file for fd 1/2")
-	maxStep := fs.Int64("maxstep", 300000, "drop calls longer than this many yields")
+	maxStep := fs.Int64("maxstep", 600000, "drop calls longer than this many yields")
 	free := fs.Bool("free", false, "degraded mode: free-running goroutines, no simulator control")
 	wantSigs := fs.Bool("sigs", false, "include every run signature in the result")
 	budgetMs := fs.Int64("budget-ms", 0, "stop after this much wall time (0 = none)")
